@@ -506,8 +506,7 @@ func containsString(path []string, rid string) bool {
 	return false
 }
 
-func (s *Subscription) unsubscribeRefs() {
-	sent := s.IsSent()
+func (s *Subscription) unsubscribeRefs(sent bool) {
 	for _, ref := range s.refs {
 		s.c.Unsubscribe(ref.sub, false, sent, 1, false)
 	}
@@ -820,7 +819,9 @@ func (s *Subscription) Dispose() {
 	s.throttle = nil
 
 	if s.resourceSub != nil {
-		s.unsubscribeRefs()
+		// Whether the references were sent to the client is decided by the
+		// state prior to being disposed.
+		s.unsubscribeRefs(state == stateSent)
 		if state != stateDeleted {
 			s.resourceSub.Unsubscribe(s)
 		}
